@@ -33,6 +33,12 @@ Definition boverlap (a b : brec) : option (bytes * N * N) :=
 Definition bn_overlap (a b : brec) : N :=
   match boverlap a b with Some (_, s, e) => e - s | None => 0 end.
 
+(* BEDLike setters and conversions *)
+Definition bset_chrom (r : brec) (c : bytes) : brec := mkB c (b_st r) (b_en r) (b_val r).
+Definition bset_start (r : brec) (s : N) : brec := mkB (b_chr r) s (b_en r) (b_val r).
+Definition bset_end (r : brec) (e : N) : brec := mkB (b_chr r) (b_st r) e (b_val r).
+Definition to_genomic_range (r : brec) : bytes * N * N := (b_chr r, b_st r, b_en r).
+
 Definition nrange (n : N) : list N := map N.of_nat (seq 0 (N.to_nat n)).
 Definition div_ceil (a b : N) : N := if a mod b =? 0 then a / b else a / b + 1.
 
